@@ -204,7 +204,7 @@ func engineAnyu(rep *Report) {
 				// paths accept must be the same message.  Values on which parsers legitimately differ in strictness
 				// (mismatched end-group numbers, varints overflowing 64 bits, invalid UTF-8, a known field arriving with
 				// another wire type) are not judged.
-				if i < 4 {
+				if i < perType(4, 60) {
 					base := want // (the packed value itself may order map entries differently from run to run)
 					corrupt := [][]byte{
 						append(append([]byte{}, base...), 0xff),
